@@ -26,8 +26,11 @@ CONTROLS = [
     ("KeepPublishAfterPubrec", "MC_Resume_quick", "Inv_C17"),
     ("ResendReversed", "MC_Resume_quick", "Inv_C17"),
     ("ResendWithoutDup", "MC_Resume_quick", "Inv_C17"),
+    ("PendingAfterShortRead", "MC_Framing_quick", "NoLostWakeup"),
+    ("EofOnZeroRead", "MC_Framing_quick", "NoEarlyEnd"),
 ]
 def run(dev, cfg, inv):
+    module = "Framing.tla" if cfg.startswith("MC_Framing") else "Poster.tla"
     src = open(os.path.join(SPEC, cfg + ".cfg")).read()
     tmp = "NEG_%s" % dev
     src = src.replace("Dev = {}", 'Dev = {"%s"}' % dev)
@@ -36,7 +39,7 @@ def run(dev, cfg, inv):
     open(os.path.join(SPEC, tmp + ".cfg"), "w").write(src)
     md = "/verif/out/md/" + tmp
     t0 = time.time()
-    r = subprocess.run(["timeout", "900", "tlc", "-workers", "16", "-metadir", md, "-cleanup", "-noGenerateSpecTE", "-config", tmp + ".cfg", "Poster.tla"],
+    r = subprocess.run(["timeout", "900", "tlc", "-workers", "16", "-metadir", md, "-cleanup", "-noGenerateSpecTE", "-config", tmp + ".cfg", module],
                        cwd=SPEC, stdout=subprocess.PIPE, stderr=subprocess.STDOUT, text=True)
     os.remove(os.path.join(SPEC, tmp + ".cfg"))
     subprocess.run(["rm", "-rf", md])
